@@ -18,6 +18,7 @@ import (
 	"go.opentelemetry.io/collector/exporter/exporterhelper/internal/queuebatch"
 	"go.opentelemetry.io/collector/exporter/exporterhelper/internal/request"
 	"go.opentelemetry.io/collector/pipeline"
+	"go.opentelemetry.io/collector/pipeline/xpipeline"
 	"verif.local/simkit"
 )
 
@@ -156,6 +157,8 @@ type c02Cfg struct {
 	// ShutErrs: completions may also carry a shutdown-class error (what the retry sender returns for a request it
 	// gave up because of its own shutdown): for the running queue it is one more way for a request to finish
 	ShutErrs bool `json:"shutdown_class_completions,omitempty"`
+	// Signal of the exporter the queue belongs to (the queue front keeps a per-signal counter; profiles has none)
+	Signal string `json:"signal"`
 }
 
 var errBackend = errors.New("sim backend failure")
@@ -210,6 +213,7 @@ func c02Config(tp *simkit.Tape) c02Cfg {
 		}
 	}
 	c.ShutErrs = tp.Chance(1, 3)
+	c.Signal = []string{"logs", "traces", "metrics", "profiles"}[tp.Weighted(3, 1, 1, 2)]
 	return c
 }
 
@@ -299,7 +303,7 @@ func runC02(r *simkit.Run) {
 		panic("harness: generated invalid config: " + err.Error())
 	}
 	set := queuebatch.Settings[request.Request]{
-		Signal: pipeline.SignalLogs, ID: component.MustNewID("simexp"), Telemetry: s.tel.NewTelemetrySettings(),
+		Signal: map[string]pipeline.Signal{"logs": pipeline.SignalLogs, "traces": pipeline.SignalTraces, "metrics": pipeline.SignalMetrics, "profiles": xpipeline.SignalProfiles}[cfg.Signal], ID: component.MustNewID("simexp"), Telemetry: s.tel.NewTelemetrySettings(),
 		Encoding: simReqEncoding{}, Sizers: simSizers(),
 	}
 	export := func(_ context.Context, req request.Request) error {
